@@ -664,6 +664,21 @@ fn thread_op(k: usize, guards: &mut Vec<G>, w: &[&str]) -> Option<String> {
                 _ => "bad-op most recent guard is not a local span".into(),
             }
         }
+        // `.with_properties` on a local span that is not the most recent guard: newer scopes may have been opened since
+        ["lWithPropsAt", k, cl] => {
+            let k: usize = k.parse().ok()?;
+            let cl = parse_closure(cl)?;
+            let n = guards.len();
+            match if k < n { guards.get_mut(n - 1 - k) } else { None } {
+                Some(G::Local(slot)) => {
+                    let invoked = Cell::new(false);
+                    let s = slot.take().unwrap();
+                    *slot = Some(s.with_properties(|| cl.call(&invoked)));
+                    format!("cl {}", invoked.get() as u8)
+                }
+                _ => "bad-op guard is not a local span".into(),
+            }
+        }
         ["lAddProps", cl] => {
             let cl = parse_closure(cl)?;
             let invoked = Cell::new(false);
